@@ -319,9 +319,53 @@ fn values<W: Write>(r: &mut Rng, cfg: &TermCfg, n: usize, o: &mut Out<W>) {
             }
             None => o.fail("C16", "-", "typst panicked", &raw),
         }
+        // a twin differing only by a tiny change of one number must render differently (C16)
+        if let Some(tw) = perturb(r, &v) {
+            o.checked("C16");
+            if let (Ok(a), Ok(b)) = (catch_unwind(AssertUnwindSafe(|| FormatterTypst.format(&v))), catch_unwind(AssertUnwindSafe(|| FormatterTypst.format(&tw)))) {
+                if a == b && canon_dedup(&v) != canon_dedup(&tw) {
+                    o.fail("C16", "-", "two values differing in one number render to the same Typst text", &format!("a={} b={} text={}", ser::narsese(&v, Mode::Raw), ser::narsese(&tw, Mode::Raw), ser::hs(&a)));
+                }
+            }
+        }
         o.run("cast", "-", &raw);
         cast_oracle(o, &v);
         // the stand-alone item printers/parsers
+    }
+}
+
+/// the same value with one truth / budget number nudged (1 ulp, 1e-9 or 1e-5), kept inside [0,1]
+fn perturb(r: &mut Rng, n: &Narsese) -> Option<Narsese> {
+    let nudge = |r: &mut Rng, x: f64| -> f64 {
+        let d = match r.below(3) { 0 => f64::from_bits(x.to_bits() + 1) - x, 1 => 1e-9, _ => 1e-5 };
+        let y = if x + d <= 1.0 { x + d } else { x - d };
+        if (0.0..=1.0).contains(&y) && y != x { y } else { x / 2.0 + 0.25 }
+    };
+    let tr = |r: &mut Rng, t: &Truth| -> Option<Truth> {
+        match t { Truth::Single(a) => Some(Truth::Single(nudge(r, *a))), Truth::Double(a, b) => Some(if r.chance(1, 2) { Truth::Double(nudge(r, *a), *b) } else { Truth::Double(*a, nudge(r, *b)) }), _ => None }
+    };
+    let sent = |r: &mut Rng, s: &Sentence| -> Option<Sentence> {
+        match s {
+            Sentence::Judgement(t, x, st) => tr(r, x).map(|x| Sentence::Judgement(t.clone(), x, st.clone())),
+            Sentence::Goal(t, x, st) => tr(r, x).map(|x| Sentence::Goal(t.clone(), x, st.clone())),
+            _ => None,
+        }
+    };
+    match n {
+        Narsese::Sentence(s) => sent(r, s).map(Narsese::Sentence),
+        Narsese::Task(k) => {
+            let b = match &k.1 {
+                Budget::Single(p) => Some(Budget::Single(nudge(r, *p))),
+                Budget::Double(p, d) => Some(Budget::Double(*p, nudge(r, *d))),
+                Budget::Triple(p, d, q) => Some(Budget::Triple(*p, *d, nudge(r, *q))),
+                _ => None,
+            };
+            match (b, r.chance(1, 2)) {
+                (Some(b), true) => Some(Narsese::Task(Task(k.0.clone(), b))),
+                _ => sent(r, &k.0).map(|s| Narsese::Task(Task(s, k.1.clone()))),
+            }
+        }
+        _ => None,
     }
 }
 
@@ -920,6 +964,14 @@ fn seqs<W: Write>(r: &mut Rng, cfg: &TermCfg, n: usize, o: &mut Out<W>) {
             for (i, s) in inputs.iter().enumerate() {
                 let single = exec::eparse_out(ff, s);
                 let again = exec::eparse_out(ff, s);
+                // C15: the kind of a parsed input depends on the items IT carries (budget ⇒ task, ...)
+                o.checked("C15");
+                let kind = |x: &str| x.split(' ').nth(2).unwrap_or("").to_string();
+                if let Some(pm) = parts.get(i) {
+                    if pm.starts_with("ok ") && single.starts_with("ok ") && kind(pm) != kind(&single) {
+                        o.fail("C15", f, &format!("parse_multi[{i}] classifies the input as {} but parsed alone it is {}", kind(pm), kind(&single)), &format!("inputs={payload}"));
+                    }
+                }
                 if parts.get(i).copied() != Some(single.as_str()) {
                     o.fail("C08", f, &format!("parse_multi[{i}] differs from parsing the input alone"), &format!("inputs={payload} multi={} single={single}", parts.get(i).unwrap_or(&"<missing>")));
                 }
